@@ -32,15 +32,14 @@ def run_on_mutant(patch, props, tier="quick"):
                 return {p: ("apply-failed", 0, r.stdout + r.stderr) for p in props}
         out = {}
         for p in props:
-            evp = os.path.join(core.EVID, f"{p}.json")
-            saved = open(evp).read() if os.path.exists(evp) else None
-            env = dict(os.environ, CBI_REPO=dst, VERIF_TIER=tier)
-            c = subprocess.run([os.path.join(core.VERIF, "check"), p], cwd=core.VERIF, env=env,
-                               capture_output=True, text=True)
-            if saved is not None:
-                open(evp, "w").write(saved)
-            elif os.path.exists(evp):
-                os.unlink(evp)
+            # the mutant's evidence goes to the scratch area: /verif/evidence describes /repo only
+            env = dict(os.environ, CBI_REPO=dst, VERIF_TIER=tier, VERIF_EVID=os.path.join(tmp, "evidence"))
+            try:
+                c = subprocess.run([os.path.join(core.VERIF, "check"), p], cwd=core.VERIF, env=env,
+                                   capture_output=True, text=True, timeout=7200)
+            except subprocess.TimeoutExpired as e:
+                out[p] = ("timeout", 0, str(e.stdout)[-1500:])
+                continue
             viol = [l for l in c.stdout.splitlines() if l.startswith("VIOLATION")]
             out[p] = (c.returncode, len(viol), c.stdout[-1500:])
         return out
